@@ -1,0 +1,15 @@
+//go:build verif
+// +build verif
+
+package watch
+
+import "github.com/fsnotify/fsnotify"
+
+// VerifPaths returns the paths selected by NewWatcher (verification builds only).
+func (w *Watcher) VerifPaths() []string { return w.paths }
+
+// VerifEvents returns the subscribed event names.
+func (w *Watcher) VerifEvents() map[string]bool { return w.events }
+
+// VerifEventName maps an fsnotify operation to the watcher's event name.
+func VerifEventName(op fsnotify.Op) string { return fsnotifyMap[op] }
